@@ -175,6 +175,10 @@ def oracle(case, rec, an, streams, mb):
                 p = _tens_eq(ta, tb, check_name=False)
                 if p:
                     viol.append(("constant-operand-meta|%s" % sop["op"], "constant operand %d of %s: %s" % (pos, sop["op"], "; ".join(p))))
+                # operand wiring: the operator must refer to the source's constant tensor, not to a renamed working copy of it
+                # (a copy per operator also loses the sharing of one constant between several operators)
+                if ta["name"] != tb["name"]:
+                    viol.append(("constant-operand-wiring|%s" % sop["op"], "constant operand %d of %s is tensor %r, the source operator refers to %r" % (pos, sop["op"], tb["name"], ta["name"])))
             else:
                 if ta["name"] != tb["name"]:
                     viol.append(("wiring|%s" % sop["op"], "operand %d of %s is %r, source has %r" % (pos, sop["op"], tb["name"], ta["name"])))
